@@ -7,7 +7,13 @@ WITNESSES = ['C13W1Fail', 'C13W1Twin']
 
 def rules(ctx):
     S.c13_rules(ctx)
+    S.staged_root_rules(ctx)
+    S.compaction_target_rules(ctx)
+    # a crash during compaction is recovered like any other: the commit protocol
+    S.c01_r1_commit_protocol(ctx)
+    S.c01_r2_grow(ctx)
     S.walker_rules(ctx)
+    S.full_range_rules(ctx)
     S.c01_r5_cow(ctx)
     S.c10_rules(ctx)
     S.c02_r4_who_frees(ctx)
